@@ -467,6 +467,16 @@ impl Monitor for C19 {
                     let a = alphabet_of(3);
                     let text: Vec<u8> = [0usize, 1, 2, 2, 1, 0, 2, 2].iter().map(|&i| a[i]).collect();
                     self.qgram_index_case(ctx, rng, 3, 2, &text, &[text[2..6].to_vec()], usize::MAX);
+                    if !ctx.tiny() {
+                        // one q-gram with more than 2^16 occurrences (position lists must not be built with narrow cursors)
+                        let a1 = alphabet_of(1);
+                        let long = vec![a1[0]; 70_000];
+                        self.qgram_index_case(ctx, rng, 1, 1, &long, &[], usize::MAX);
+                        let a2 = alphabet_of(2);
+                        let long2: Vec<u8> = (0..140_001).map(|i| a2[i % 2]).collect();
+                        self.qgram_index_case(ctx, rng, 2, 2, &long2, &[], usize::MAX);
+                        ctx.count("qgrams_with_more_than_65535_occurrences", 2);
+                    }
                 }
                 1 => {
                     // finding F10 (fixed): matches left of the main diagonal
